@@ -36,6 +36,30 @@ def fillers(k):
 
 def dispatch(disp, R, m, kw):
     """returns the 4 floats (or raises)"""
+    if disp.endswith("]") and not disp.startswith("QuaternionArray"):
+        base, how = disp[:-1].split("[")
+        Rl = np.asfortranarray(R) if how == "F-order" else np.ascontiguousarray(R.T).T      # equal content, column-major memory
+        if m == "default":
+            return {"function": lambda: ori.shepperd(Rl), "DCM.to_quaternion": lambda: DCM(Rl).to_quaternion(), "Quaternion(dcm=)": lambda: Quaternion(dcm=Rl)}[base]()
+        if base == "function":
+            return ori.itzhack(Rl, version=kw["version"]) if m == "itzhack" else (ori.sarabandi(Rl, eta=kw["threshold"]) if m == "sarabandi" else getattr(ori, m)(Rl))
+        if base == "DCM.to_quaternion":
+            return DCM(Rl).to_quaternion(method=m, **kw)
+        return Quaternion(dcm=Rl, method=m, **kw)
+    if disp.startswith("QuaternionArray.from_DCM(inplace=False)") or disp.startswith("QuaternionArray(DCM=, versors=False)"):
+        n, pos = [int(x) for x in disp.split("#")[1].split("@")]
+        rows = fillers(n - 1)
+        rows.insert(pos, R.copy())
+        mk = {} if m == "default" else dict(method=m, **kw)
+        if disp.startswith("QuaternionArray.from_DCM"):
+            return np.asarray(QuaternionArray().from_DCM(np.array(rows), inplace=False, **mk))[pos]
+        return np.asarray(QuaternionArray(DCM=np.array(rows), versors=False, **mk))[pos]
+    if disp.startswith("QuaternionArray(DCM=)[F-order]"):
+        n, pos = [int(x) for x in disp.split("#")[1].split("@")]
+        rows = fillers(n - 1)
+        rows.insert(pos, R.copy())
+        S = np.asfortranarray(np.array(rows))
+        return (QuaternionArray(DCM=S) if m == "default" else QuaternionArray(DCM=S, method=m, **kw))[pos]
     if m == "default":
         # no method argument: the documented default (Shepperd) on every dispatcher
         if disp == "function":
@@ -67,7 +91,9 @@ def dispatch(disp, R, m, kw):
 
 
 DISPATCHERS = ["function", "DCM.to_quaternion", "Quaternion(dcm=)",
-               "QuaternionArray(DCM=)#1@0", "QuaternionArray(DCM=)#2@1", "QuaternionArray(DCM=)#5@2"]
+               "QuaternionArray(DCM=)#1@0", "QuaternionArray(DCM=)#2@1", "QuaternionArray(DCM=)#5@2",
+               "function[F-order]", "DCM.to_quaternion[transposed-view]", "Quaternion(dcm=)[F-order]", "QuaternionArray(DCM=)[F-order]#3@1",
+               "QuaternionArray.from_DCM(inplace=False)#3@2", "QuaternionArray(DCM=, versors=False)#2@0"]
 
 
 def check_case(t, rec, cls, mirror_checked=True):
